@@ -98,7 +98,7 @@ def run_cmd(argv, cwd, env=None, timeout=30.0):
                    classify_exit(code))
 
 
-def write_tree(root, files=None, dirs=None, symlinks=None):
+def write_tree(root, files=None, dirs=None, symlinks=None, modes=None):
     for d in dirs or []:
         os.makedirs(os.path.join(root, d), exist_ok=True)
     for rel, content in (files or {}).items():
@@ -117,3 +117,5 @@ def write_tree(root, files=None, dirs=None, symlinks=None):
         os.makedirs(os.path.dirname(p), exist_ok=True)
         target = target.replace("{PROBE2}", os.environ.get("MSV_PROBE2", "/verif/.cache/target-hooks-ffi2/debug/libmsv_ffi_probe.so"))
         os.symlink(target.replace("{PROBE}", os.environ.get("MSV_PROBE", "/verif/.cache/target-ffi/debug/libmsv_ffi_probe.so")), p)
+    for rel, mode in (modes or {}).items():
+        os.chmod(os.path.join(root, rel), mode)
